@@ -1,7 +1,7 @@
 (* Props/C11.v — property C11: Normalize reorders any contract-abiding stream losslessly into sequential order. *)
 From CV Require Import Proofs.SchedP5.
 From CV Require Import Model.Base Model.Events Model.Contract Model.Normalize Proofs.BaseP Proofs.NormalizeP Proofs.NormalizeP2
-  Proofs.NormalizeP3.
+  Proofs.NormalizeP3 Proofs.NormalizeP5.
 From CV Require Proofs.Compose.
 From Coq Require Import Permutation.
 
@@ -89,3 +89,21 @@ Theorem C11_runner_stream_is_normalized_losslessly :
     Sched.pc s = Sched.Done -> map snd es = tr -> Permutation (concat (nrun es)) es.
 Proof. exact Compose.runner_stream_is_normalized_losslessly. Qed.
 Print Assumptions C11_runner_stream_is_normalized_losslessly.
+
+(* AN ALREADY SEQUENTIAL STREAM PASSES THROUGH UNCHANGED, EVENT BY EVENT: on every stream accepted by the SEQUENTIAL
+   contract automaton (one feature, one rule, one attempt open at a time; any length, rules, retries, pass-through
+   events anywhere) every handle_event call forwards exactly the event it was given — nothing is held back *)
+Theorem C11_sequential_stream_passes_through :
+  forall es, normalized_prefix (map snd es) = true -> nrun es = map (fun e => [e]) es.
+Proof. exact sequential_stream_passes_through. Qed.
+Print Assumptions C11_sequential_stream_passes_through.
+
+Example C11_sequential_nonvacuous :
+  let es := [(1, EvStarted); (2, EvFeatS 1); (3, EvRuleS 1 4); (4, EvScen 1 (Some 4) 5 (Some (0, 1)) ScStarted);
+             (5, EvScen 1 (Some 4) 5 (Some (0, 1)) (ScStep 9 (StFailed (EPanic 1)))); (6, EvScen 1 (Some 4) 5 (Some (0, 1)) ScFinished);
+             (7, EvParsingFinished 1 1 1 1 0);
+             (8, EvScen 1 (Some 4) 5 (Some (1, 0)) ScStarted); (9, EvScen 1 (Some 4) 5 (Some (1, 0)) ScFinished);
+             (10, EvRuleF 1 4); (11, EvScen 1 None 6 None ScStarted); (12, EvScen 1 None 6 None ScFinished);
+             (13, EvFeatF 1); (14, EvFeatS 2); (15, EvFeatF 2); (16, EvFinished)] in
+  normalized (map snd es) = true.
+Proof. vm_compute. reflexivity. Qed.
